@@ -177,7 +177,9 @@ AdvAddDisc == Move("AddDisc") /\ Len(cur.discs) < MaxDiscs /\ \E e \in Pool, pos
                  /\ Rewrite(ReMsg(cur.jwt, IF pos = "end" THEN Append(cur.discs, e.d) ELSE <<e.d>> \o cur.discs, cur.kb), [a |-> "AddDisc", e |-> PoolDesc(e), pos |-> pos])
                  /\ UNCHANGED ledger
 AdvDropDisc == Move("DropDisc") /\ \E i \in DOMAIN cur.discs :
-                 Rewrite(ReMsg(cur.jwt, DropAt(cur.discs, i), cur.kb), [a |-> "DropDisc", d |-> Desc(cur.discs[i])]) /\ UNCHANGED ledger
+                 \* (occ: WHICH copy, counted from the front - with a repeated disclosure in the list the descriptor alone is ambiguous;
+                 \*  absolute positions are not transferable: the real holder orders its disclosures differently from the model)
+                 Rewrite(ReMsg(cur.jwt, DropAt(cur.discs, i), cur.kb), [a |-> "DropDisc", d |-> Desc(cur.discs[i]), occ |-> Cardinality({j \in 1..i : Desc(cur.discs[j]) = Desc(cur.discs[i])})]) /\ UNCHANGED ledger
 AdvDupDisc == Move("DupDisc") /\ Len(cur.discs) < MaxDiscs /\ \E i \in DOMAIN cur.discs, pos \in {"front", "end"} :
                  Rewrite(ReMsg(cur.jwt, IF pos = "end" THEN Append(cur.discs, cur.discs[i]) ELSE <<cur.discs[i]>> \o cur.discs, cur.kb),
                          [a |-> "DupDisc", d |-> Desc(cur.discs[i]), pos |-> pos]) /\ UNCHANGED ledger
